@@ -131,3 +131,23 @@ Definition matrix_svd_pinned (k : nat) (A : mat T) (e : T) (rcap : Z) : mat T * 
 (* accuracy's last line WITHOUT the sentinel test, to state what the sentinel protects from *)
 Definition accuracy_unguarded (c z1 z2 : T) : T := c * z1 / z2.
 End Pinned.
+
+(* ------------------------------------------------------------------------------------------------
+   5. svd.py:svd_matrix(Y_full, e, r) for a 2^q x 2^q matrix (not defined in the frozen Model/Svd.v):
+        Z = Y_full.reshape([2]*(2q), 'F').transpose(0, q, 1, q+1, ...).reshape([4]*q, 'F');  return svd(Z, e, r)
+      mode k of Z has index m_k = i_k + 2 j_k (i_k, j_k = k-th bits of the row / column number); svd reads Z in C order,
+      i.e. m_0 is the most significant base-4 digit of the flat position t. *)
+Section SvdMatrix.
+Context {T : Type} (K : ops T).
+Fixpoint qrc (q t : nat) : nat * nat :=
+  match q with
+  | O => (O, O)
+  | S q' => let m := (t / 4 ^ q') in let rc := qrc q' (t mod 4 ^ q') in
+            (m mod 2 + 2 * fst rc, m / 2 + 2 * snd rc)
+  end.
+Definition svd_matrix_data (q : nat) (A : mat T) : list T :=
+  tab (4 ^ q) (fun t => mget K A (fst (qrc q t)) (snd (qrc q t))).
+Variable svdo : nat -> mat T -> mat T * list T * mat T.
+Definition svd_matrix (q : nat) (A : mat T) (e : T) (rcap : Z) : list (core T) :=
+  svd K svdo (repeat 4 q) (svd_matrix_data q A) e rcap.
+End SvdMatrix.
